@@ -8,6 +8,7 @@ CONSTANTS
   ScanMemo = "none"
   OperandScope = "per call"
   SubqueryColumns = "process-wide"
+  ResultScope = "per execute call"
   JobSet = "subcols"
 INIT Init
 NEXT Next
